@@ -78,7 +78,7 @@ func simTimeout(q, t time.Duration) func(string) time.Duration {
 
 func c02Profile() *Profile {
 	return &Profile{Upsert: 18, Delete: 8, Compact: 4, LeaveLocal: 1, MaxLeaves: 1,
-		Gossip: 25, Deliver: 35, Drop: 6, Dup: 4, Join: 2, LeaveTo: 1}
+		Gossip: 25, Deliver: 35, Drop: 6, Dup: 4, Join: 2, LeaveTo: 1, Forge: 2}
 }
 
 func c02Monitors(s *Sim) {
@@ -157,7 +157,7 @@ func init() {
 			"expiry and liveness are disabled, as in the property's quantifier",
 			"datagram contents are never corrupted on honest paths (hostile input is C13)",
 		},
-		RequireCounters: []string{"truncated_deltas", "relay_applications", "deletes_learned_via_compaction", "duplicates", "delayed_deliveries", "compactions"},
+		RequireCounters: []string{"truncated_deltas", "relay_applications", "deletes_learned_via_compaction", "duplicates", "delayed_deliveries", "compactions", "forged_self_deltas"},
 		Timeout:         simTimeout(10*time.Minute, 90*time.Minute),
 		Run:             runC02,
 		Replay:          replayWith(c02Monitors),
